@@ -9,6 +9,11 @@ for m in re.finditer(r"check (C\d+) \((\w+)\) on patched tree: rc=(\d+) :: (.*)"
     kinds = sorted(set(re.findall(r"violation: (\w+)", m.group(4))))
     checks.append({"check": m.group(1), "tier": m.group(2), "exit": int(m.group(3)),
                    "result": ("caught (%s)" % ", ".join(kinds)) if m.group(3) == "1" else ("missed" if m.group(3) == "0" else "harness error")})
+# a check that was run again (after the check had been strengthened, or at a later base commit) counts with its last result
+last = {}
+for c in checks:
+    last[c["check"]] = c
+checks = [last[k] for k in sorted(last)]
 meta = {"id": sid, "property": prop, "change": change, "needs": needs,
         "ran": [l for l in log.splitlines() if l.startswith(("base commit", "demo ", "repository suite", "338 passed")) or " passed" in l][:6],
         "checks": checks}
